@@ -68,6 +68,12 @@ def categorical_dim(dim, items_dim=None):
         cats.append(c)
     extra = None
     typ = {"class": "categorical", "ordinal": False, "categories": cats}
+    if dim.get("typedef_order"):
+        # the server may list the categories in another order than the data axis and say
+        # so with an "order" list (category ids in DATA order); a wire-format variation
+        # only: the payload positions of the spec are unchanged
+        typ["order"] = [c["id"] for c in cats]
+        typ["categories"] = cats[1:] + cats[:1] if dim["typedef_order"] == "rotate" else cats[::-1]
     if items_dim is not None:  # categories of a categorical array
         extra = {"subreferences": _subrefs(items_dim), "is_dichotomous": False}
         typ["subvariables"] = [_item_subvar_id(items_dim, p) for p in range(1, items_dim["n"] + 1)]
